@@ -403,3 +403,24 @@ Proof.
   rewrite sim3_inverse_with_eq by lra. unfold se3_inverse, pinv. cbn [prot ptr].
   replace (1 / 1) with 1 by field. now rewrite mscale_1, vscale_1.
 Qed.
+
+
+(* ---------- the rotation angle is a class function: unchanged by inversion and by conjugation ---------- *)
+Lemma cos_angle_inverse (r : M3R) : cos_angle (mt r) = cos_angle r.
+Proof. unfold cos_angle. now rewrite tr_mt. Qed.
+Theorem angle_of_inverse (r : M3R) : angleR (mt r) = angleR r.
+Proof. unfold angleR. now rewrite cos_angle_inverse. Qed.
+Theorem angle_conjugation_invariant (c r : M3R) : Orth c -> angleR (mm (mm c r) (mt c)) = angleR r.
+Proof.
+  intros [O _]. unfold angleR, cos_angle. rewrite tr_mm_comm, <- mm_assoc, O, mm_I_l. reflexivity.
+Qed.
+(* the angle between a rotation and the identity is the rotation's own angle *)
+Theorem dist_angle_identity (r : M3R) : dist_angle I3 r = angleR r /\ dist_angle r I3 = angleR r.
+Proof.
+  unfold dist_angle, relative_so3. rewrite mt_I, mm_I_l, mm_I_r. split; [reflexivity|apply angle_of_inverse].
+Qed.
+(* angle of a product with an inverse: d(a, b) is the angle of a^T b and of b a^T alike *)
+Theorem dist_angle_as_right_difference (a b : M3R) : dist_angle a b = angleR (mm b (mt a)).
+Proof.
+  unfold dist_angle, relative_so3, angleR, cos_angle. now rewrite tr_mm_comm.
+Qed.
